@@ -1198,6 +1198,10 @@ def execute (cmd : Cmd) : EM Status := do
 
 def truncateChanges (mark : Nat) : EM Unit := modify (fun s => { s with changes := s.changes.truncate mark })
 
+/-- `mark = mark.min(s.changes.len())` after a `next_cmd` inside a sub-loop (repair of D47): a key that
+    leaves vi insert mode closes every open undo group, also the ones below the mark -/
+def lowerMark (mark : Nat) : EM Nat := fun s => .ok (min mark s.changes.undos.length, s)
+
 /-- candidate index after Tab / Shift-Tab in the circular loop (index `n` = the original text) -/
 def compNext (n i : Nat) : Nat := (i + 1) % (n + 1)
 def compPrev (n i : Nat) : Nat := if i == 0 then n else (i - 1) % (n + 1)
@@ -1216,6 +1220,7 @@ def completeCircular (start : Nat) (cands : List Text) (mark : Nat) (backup : Te
     else lb S U (LB.update S U backup backupPos)
     refreshLine S U cfg
     let cmd ← nextCmd S U cfg fuel true true
+    let mark ← lowerMark mark
     match cmd with
     | .complete => completeCircular start cands mark backup backupPos fuel (compNext cands.length i)
     | .completeBackward => completeCircular start cands mark backup backupPos fuel (compPrev cands.length i)
@@ -1278,6 +1283,7 @@ def searchLoop (mark : Nat) (backup : Text) (backupPos : Nat) :
     refreshPromptAndLine S U cfg
       ((if success then "(reverse-i-search)`" else "(failed reverse-i-search)`").toList ++ searchBuf ++ "': ".toList)
     let cmd ← nextCmd S U cfg fuel true true
+    let mark ← lowerMark mark
     let doSearch (searchBuf : Text) (histIdx : Nat) (dir : Dir) : EM (Option Cmd) := do
       match (memHist cfg).search searchBuf histIdx dir with
       | some (idx, entry, pos) => do
